@@ -137,6 +137,10 @@ func unexpand(s string) string {
 }
 
 func msgId(label string) []byte {
+	if label == "qZ" {
+		// the all-zero id: the value every never-used slot of the duplicate filter's ring holds
+		return make([]byte, pubsub.VerifMsgIdLen)
+	}
 	h := sha256.Sum256([]byte("c17-msg-" + label))
 	return h[:pubsub.VerifMsgIdLen]
 }
